@@ -149,6 +149,7 @@ func ruleFmtClass(w *World, r *Report) {
 	}
 	// formatter classes
 	formatter := map[int64][]int64{}
+	var extraExits []string
 	// main loop header: the loop header that dominates every other loop header
 	var hdr *ssa.BasicBlock
 	for _, b := range fm.Blocks {
@@ -258,8 +259,71 @@ func ruleFmtClass(w *World, r *Report) {
 			}
 			sort.Slice(terms, func(i, j int) bool { return terms[i] < terms[j] })
 			formatter[c] = terms
+			// the copy loop is left only by a terminator or by the end of the input
+			var wbs []*ssa.BasicBlock
+			for _, x := range inner {
+				for _, in := range x.Instrs {
+					if call, ok := in.(*ssa.Call); ok && calleeFullName(&call.Call) == "(*strings.Builder).WriteRune" {
+						if addr, okl := isLoad(call.Call.Args[1]); okl {
+							if _, oki := addr.(*ssa.IndexAddr); oki {
+								wbs = append(wbs, x)
+							}
+						}
+					}
+				}
+			}
+			avoidMain := func(y *ssa.BasicBlock) bool { return y == hdr }
+			copySet := map[*ssa.BasicBlock]bool{}
+			for _, x := range inner {
+				for _, wb := range wbs {
+					if x == wb || (reachableAvoiding(x, wb, avoidMain) && reachableAvoiding(wb, x, avoidMain)) {
+						copySet[x] = true
+					}
+				}
+			}
+			for _, x := range inner {
+				if !copySet[x] {
+					continue
+				}
+				for k, sx := range x.Succs {
+					if copySet[sx] {
+						continue
+					}
+					okExit := false
+					if iff, ok := x.Instrs[len(x.Instrs)-1].(*ssa.If); ok {
+						if bo2, ok := iff.Cond.(*ssa.BinOp); ok {
+							if bo2.Op == token.EQL && k == 0 {
+								if _, okt := constInt(bo2.Y); okt {
+									if addr, okl := isLoad(bo2.X); okl {
+										if _, oki := addr.(*ssa.IndexAddr); oki {
+											okExit = true
+										}
+									}
+								}
+							}
+							if bo2.Op == token.LSS && k == 1 {
+								if _, okl := lenArg(bo2.Y); okl {
+									okExit = true
+								}
+							}
+						}
+					}
+					if !okExit {
+						extraExits = append(extraExits, fmt.Sprintf("class %q at %s", rune(c), w.InstrPos(x.Instrs[len(x.Instrs)-1])))
+					}
+				}
+			}
 		}
 	}
+	// the whole input is formatted: the result is produced only when the main loop over the runes ran to its end
+	whole := true
+	for _, ret := range allReturns(fm) {
+		if hdr.Dominates(ret.Block()) && !edgeDominates(hdr, 1, ret.Block()) {
+			whole = false
+		}
+	}
+	r.Check(whole, rule, w.Pos(fm.Pos()), w.Name(fm), "end of the main loop", "the result is returned only after every rune of the input was looked at", "the main loop over the input can be left before the end: the rest of the text is missing from the result")
+	r.Check(len(extraExits) == 0, rule, w.Pos(fm.Pos()), w.Name(fm), "exits of the copy-through loops", "left only on the terminating rune or at the end of the input", fmt.Sprintf("a copy-through loop can be left in the middle of the token (%v): the rest of a string or comment is then formatted as code", extraExits))
 	show := func(m map[int64][]int64) map[string]string {
 		out := map[string]string{}
 		for k, v := range m {
@@ -592,6 +656,10 @@ func ruleDirFirst(w *World, r *Report) {
 }
 
 var c14Witnesses = []Witness{
+	{Name: "formatter-string-copy-leaves-after-eight-runes", Rule: "R-FMTCLASS", Edits: []Edit{
+		{File: "util.go", Old: "			for i++; i < len(A); i++ {\n				sb.WriteRune(A[i])\n				if A[i] == '\"' {\n					break\n				}\n			}", New: "			for n := 0; i+1 < len(A); n++ {\n				i++\n				sb.WriteRune(A[i])\n				if A[i] == '\"' || n > 7 {\n					break\n				}\n			}"}}},
+	{Name: "formatter-stops-after-thousand-runes", Rule: "R-FMTCLASS", Edits: []Edit{
+		{File: "util.go", Old: "		default:\n			appendRune(c, prev, indent)\n			prev = normal\n		}\n	}\n\n	return strings.TrimSpace(sb.String())", New: "		default:\n			appendRune(c, prev, indent)\n			prev = normal\n		}\n		if i > 1000 {\n			break\n		}\n	}\n\n	return strings.TrimSpace(sb.String())"}}},
 	{Name: "formatter-loses-string-state", Rule: "R-FMTCLASS", Edits: []Edit{
 		{File: "util.go", Old: "		case c == '\"':\n			// copy string literals through verbatim\n			appendRune(c, prev, indent)\n			for i++; i < len(A); i++ {\n				sb.WriteRune(A[i])\n				if A[i] == '\"' {\n					break\n				}\n			}\n			prev = normal\n", New: ""}}},
 	{Name: "formatter-string-state-stops-at-space", Rule: "R-FMTCLASS", Edits: []Edit{
